@@ -1,13 +1,19 @@
 (* Extraction of the executable model and specification to OCaml.
    Only the directives of ExtrOcamlBasic are used (bool, option, unit, list, prod, sumbool, …);
    Z, N, positive and nat stay extracted inductives: no Extract Constant, no ExtrOcamlZInt/NatInt. *)
-From OxiVerif Require Import Base.Common Spec.Filter Spec.Adam7 Spec.Sem Model.Types Model.Headers Model.ScanLines Model.Filters Model.Interlace.
+From OxiVerif Require Import Base.Common Spec.Filter Spec.Adam7 Spec.Sem Spec.Decode Model.Types Model.Headers Model.ScanLines Model.Filters Model.Interlace Model.BitDepth Model.Color Model.Palette Model.Options Model.Evaluate Model.Reductions Model.PngData Model.Optimize Base.Crc32.
 Require Import ExtrOcamlBasic.
 Extraction Language OCaml.
 Set Extraction KeepSingleton.
 Extraction "model.ml"
   paeth_predictor filter_line unfilter_line filter_image filter_image_rows unfilter_image
   scan_lines scan_ranges filter_of_code filter_code
+  reduced_bit_depth_16_to_8 scaled_bit_depth_16_to_8 reduced_bit_depth_8_or_less expanded_bit_depth_to_8
+  reduced_to_indexed reduced_rgb_to_grayscale indexed_to_channels cleaned_alpha_channel reduced_alpha_channel
+  reduced_palette sorted_palette sorted_palette_mzeng sorted_palette_battiato scale_16_to_8
+  crc32 default_options from_preset strip_keep is_c2pa parse_next_chunk parse_ihdr_chunk srgb_rendering_intent
+  preprocess_chunks postprocess_chunks from_slice output perform_reductions optimize_raw optimize_png optimize_from_memory
+  is_fully_optimized raw_image_new raw_add_chunk raw_add_icc raw_create best_of sequential run init_state min_by_key completeb
   raw_data_size interlace_image deinterlace_image change_interlacing
   paeth_spec spec_recon_line spec_filter_line spec_recon_seq
-  spec_layout spec_raw_size spec_image_pixels spec_sem sval picture_eqb picture_alpha_equivb scaled_rgba.
+  spec_layout spec_raw_size spec_image_pixels spec_sem spec_sem_scaled spec_unfilter spec_decode_stream sval picture_eqb picture_alpha_equivb scaled_rgba.
